@@ -153,6 +153,10 @@ def run(tier, seed, ck=None):
         p = r.paths[0]
         ok = ok and p['obs']['err'].get('label') == 'err:nil or empty scalar' and p['obs']['R']['f'] == p['obs']['R0']['f'] and not p['writes']
         ck.ground('C13.cselnil%d' % w, 'nil operand: errParamNilScalar returned and receiver untouched', ok)
+    if own:
+        # the verdicts above are about single calls from the initial package state: histories (observe, scribble on returned slices, mutate, observe) must not change them
+        from props import hidden
+        hidden.embed(ck, tier, ('scalar',), 'C13', 'a scalar predicate')
     return ck.finish() if own else None
 
 
